@@ -79,6 +79,8 @@ pub enum Ev
     EwrLocal { inst: u8, src: u64, val: Option<u32>, src_alive: bool },
     /// The marker command of op `uid` was applied.
     Apply(u32),
+    /// Everything op `uid`'s commands caused has completed.
+    ApplyEnd(u32),
     /// Immediate op `uid` begins / ends (driver direct steps, `Now` ops).
     Now(u32),
     NowEnd(u32),
@@ -107,6 +109,15 @@ pub enum Ev
     /// Runner hook events (hooks only): kind, system entity bits.
     Runner(u8, u64),
 }
+
+pub const RK_ENTER_ROOT: u8 = 0;
+pub const RK_ENTER: u8 = 1;
+pub const RK_RUN: u8 = 2;
+pub const RK_POSTPONE: u8 = 3;
+pub const RK_ABORT: u8 = 4;
+pub const RK_DISCARD: u8 = 5;
+pub const RK_ROOT_EXIT: u8 = 6;
+pub const RK_EXIT: u8 = 7;
 
 thread_local! {
     static SINK: RefCell<Vec<Ev>> = const { RefCell::new(Vec::new()) };
